@@ -106,7 +106,7 @@ func c05Grid(thorough bool) []peer.Sem {
 		}
 	}
 	for _, last := range u32s {
-		for _, code := range []uint32{0, 1, 13, 1<<31 - 1} {
+		for _, code := range []uint32{0, 1, 13, 1<<31 - 1, 1 << 31, 1<<31 + 2, 1<<32 - 1} {
 			for _, n := range []int{0, 1, 300} {
 				out = append(out, peer.Sem{Type: peer.TGoAway, Last: last, Code: code, Body: bodyOfLen(n)})
 			}
